@@ -423,6 +423,12 @@ Qed.
 Lemma ret_eqb_refl : forall r, ret_eqb r r = true.
 Proof. intros r. unfold ret_eqb. destruct (ret_eq_dec r r); congruence. Qed.
 
+Lemma lexistsb_exists : forall A (f : A -> bool) l, (exists x, In x l /\ f x = true) -> lexistsb f l = true.
+Proof.
+  intros A f l [x [Hin Hf]]. induction l as [|a l IH]; [destruct Hin|].
+  cbn [lexistsb]. destruct (f a) eqn:E; [reflexivity|]. destruct Hin as [->|Hin]; [congruence|apply IH; assumption].
+Qed.
+
 Lemma merge_complete : forall L R m,
   (forall t, filt t L = filt t R) -> legal m (map snd L) -> merge_search (S (length R)) m R = true.
 Proof.
@@ -433,9 +439,9 @@ Proof.
     cbn [map snd legal] in Hl. destruct Hl as [Hr Hl].
     destruct R as [|p R0] eqn:ER; [destruct H5|]. rewrite <- ER in *.
     cbn [merge_search]. rewrite ER. rewrite <- ER.
-    apply existsb_exists. exists t. split; [assumption|].
+    apply lexistsb_exists. exists t. split; [assumption|].
     rewrite H1. destruct (spec m o) as [m' r'] eqn:Es. cbn [snd fst] in *. subst r'.
-    rewrite ret_eqb_refl. cbn [andb].
+    rewrite ret_eqb_refl.
     replace (length R) with (S (length (remove_first t R))) by assumption.
     apply IH; [|assumption].
     intros u. destruct (Nat.eq_dec u t) as [->|Hne]; [symmetry; assumption|].
@@ -480,4 +486,72 @@ Proof.
     inversion Hrun; subst.
     replace (tr0 ++ (t, e) :: tr2) with ((tr0 ++ [(t, e)]) ++ tr2) by (rewrite <- app_assoc; reflexivity).
     eapply IH; [|exact Hr2]. eapply sreach_step; eassumption.
+Qed.
+
+(* ---------- main statements -------------------------------------------------------------------------- *)
+
+Theorem lin_point_theorem : forall rep progs c tr,
+  (forall t, ok_ops rep (progs t)) -> sreach rep progs c tr ->
+  gwf (fun _ => WIdle) tr = true /\ legal [] (map snd (lin_seq tr)) /\ final [] (map snd (lin_seq tr)) = sm c
+  /\ linearizable (hist tr).
+Proof.
+  intros rep progs c tr Hok Hr.
+  destruct (lin_invariant rep progs Hok c tr Hr) as [Hl [Hf [Hwf _]]].
+  repeat split; try assumption. exists tr. repeat split; assumption.
+Qed.
+
+Theorem one_winner_theorem : forall rep progs c tr k,
+  (forall t, ok_ops rep (progs t)) -> (forall t o, In o (progs t) -> deletes k o = false) ->
+  sreach rep progs c tr -> ~ two_winners k (hist tr).
+Proof.
+  intros rep progs c tr k Hok Hnd Hr.
+  destruct (lin_invariant rep progs Hok c tr Hr) as [Hl [_ [Hwf [_ [_ Hinv]]]]].
+  apply no_two_winners_gen; try assumption.
+  intros t o Hin. apply (Hnd t). apply Hinv. assumption.
+Qed.
+
+(* witnesses ------------------------------------------------------------------------------------------- *)
+
+(* D-C20a: two callers of the unrepaired LoadOrStoreFn both pass their Load before either stores *)
+Definition losf_progs : nat -> list op :=
+  fun t => match t with 0 => [OLoadOrStoreFn 0 1] | 1 => [OLoadOrStoreFn 0 2] | _ => [] end.
+Definition losf_sched : list (nat * option nat) :=
+  [(0, None); (0, None); (1, None); (1, None); (0, None); (1, None); (0, None); (1, None)].
+Definition losf_trace : list sevent :=
+  Eval vm_compute in match srun false (sinit losf_progs) losf_sched with Some (_, tr) => tr | None => [] end.
+
+Lemma losf_trace_run : exists c, srun false (sinit losf_progs) losf_sched = Some (c, losf_trace).
+Proof. eexists. vm_compute. reflexivity. Qed.
+
+Lemma losf_two_winners : two_winners 0 (hist losf_trace).
+Proof.
+  exists 0, 1, (OLoadOrStoreFn 0 1, RLos 1 false), (OLoadOrStoreFn 0 2, RLos 2 false).
+  vm_compute. repeat split; auto. discriminate.
+Qed.
+
+Lemma losf_not_linearizable : ~ linearizable (hist losf_trace).
+Proof.
+  apply refute_by_merge.
+  - intros t. vm_compute. destruct t as [|[|t]]; reflexivity.
+  - vm_compute. reflexivity.
+Qed.
+
+(* KF-C20c: a Range on an empty map looks at key 1 (absent), a writer then stores key 1 and key 2, the
+   Range then looks at key 2: it reports key 2 without key 1 *)
+Definition range_progs : nat -> list op :=
+  fun t => match t with 0 => [ORange] | 1 => [OStore 1 1; OStore 2 1] | _ => [] end.
+Definition range_sched : list (nat * option nat) :=
+  [(0, None); (0, None); (0, Some 1); (1, None); (1, None); (1, None); (1, None); (1, None); (1, None);
+   (0, Some 2); (0, None); (0, None)].
+Definition range_trace : list sevent :=
+  Eval vm_compute in match srun true (sinit range_progs) range_sched with Some (_, tr) => tr | None => [] end.
+
+Lemma range_trace_run : exists c, srun true (sinit range_progs) range_sched = Some (c, range_trace).
+Proof. eexists. vm_compute. reflexivity. Qed.
+
+Lemma range_not_linearizable : ~ linearizable (hist range_trace).
+Proof.
+  apply refute_by_merge.
+  - intros t. vm_compute. destruct t as [|[|t]]; reflexivity.
+  - vm_compute. reflexivity.
 Qed.
